@@ -87,7 +87,13 @@ def x_exit(v):
 
 # kind: valid | reject | ambiguous;  lex: does the token stage succeed
 ASM_SRC = {f"e{v}".replace("-", "m"): {"text": asm_exit(v), "kind": "valid", "lex": True, "exit": v} for v in EXITS}
+CUT_LIMIT = 150      # a --max-cycles value below the run length of the `count` programs and above that of the exit programs
+ASM_COUNT = (b"BR start\nDATA 16383\ncnt\nDATA 300\nstart\nloop\nLDAM cnt\nLDBC 1\nOPR SUB\nSTAM cnt\nBRZ done\nBR loop\ndone\n"
+             b"LDAC 7\nLDBM 1\nSTAI 2\nLDAC 0\nOPR SVC\n")
+X_COUNT = b"var i;\nproc main() is { i := 0; while i < 200 do i := i + 1; 0(7) }\n"
 ASM_SRC.update({
+    # runs for some 2000 cycles before it exits with 7: under --max-cycles 150 the run is cut short (status 0)
+    "count": {"text": ASM_COUNT, "kind": "valid", "lex": True, "exit": 7, "cut": {CUT_LIMIT: 0}},
     "syn": {"text": b"LDAC LDAC\n", "kind": "reject", "lex": True},          # unexpected token
     "late": {"text": b"BR nowhere\n", "kind": "reject", "lex": True},         # unknown label (CodeGen ctor)
     "opr": {"text": b"OPR FOO\n", "kind": "reject", "lex": True},             # invalid OPR operand
@@ -101,6 +107,7 @@ ASM_SRC.update({
 })
 X_SRC = {f"e{v}".replace("-", "m"): {"text": x_exit(v), "kind": "valid", "lex": True, "exit": v} for v in EXITS}
 X_SRC.update({
+    "count": {"text": X_COUNT, "kind": "valid", "lex": True, "exit": 7, "cut": {CUT_LIMIT: 0}},
     "lex": {"text": b"proc main() is 0($)\n", "kind": "reject", "lex": False},   # lexical error
     "syn": {"text": b"proc main( is skip\n", "kind": "reject", "lex": True},     # syntax error
     "sem": {"text": b"proc main() is x := 1\n", "kind": "reject", "lex": True},  # unknown symbol (ConstProp)
@@ -387,8 +394,24 @@ def reading(tool, items):
     if tool in ("xrun", "hexsim"):
         cyc = [i[2] for i in opts if i[1] == "--max-cycles"]
         r["cycles_ok"] = all(stoull_ok(c) for c in cyc)
+        r["limit"] = stoull_val(cyc[-1]) if cyc and r["cycles_ok"] else 0
         r["dump"] = any(f in ("-d", "--dump") for f in flags)
     return r
+
+
+def stoull_val(s):
+    t = s.lstrip(" \t\n\v\f\r")
+    neg = t[:1] == "-"
+    if t[:1] in "+-":
+        t = t[1:]
+    ds = ""
+    for ch in t:
+        if ch.isdigit() and ch.isascii():
+            ds += ch
+        else:
+            break
+    v = int(ds) if ds else 0
+    return (2 ** 64 - v) % 2 ** 64 if neg else v
 
 
 def stoull_ok(s):
@@ -443,6 +466,8 @@ def make_case(ctx, tool, items, extra_args=None, present=True, pre_out=None, out
                 if img is not None:
                     files[fi[1]] = img
                     sim_table.append(f"{img}/exit.{(ASM_SRC[fi[2]]['exit'] & 0xFFFFFFFF):x}")
+                    for lim, v in ASM_SRC[fi[2]].get("cut", {}).items():
+                        sim_table.append(f"{img}/exit.{(v & 0xFFFFFFFF):x}/{lim}")
     else:
         for fi in file_items:
             if present and fi[2] is not None:
@@ -455,6 +480,8 @@ def make_case(ctx, tool, items, extra_args=None, present=True, pre_out=None, out
                 src_table.append(f"{hexs(s['text'])}/{outcome_str(s['lex'], None)}/{outcome_str(full_ok, img)}")
                 if img is not None and "exit" in s:
                     sim_table.append(f"{img}/exit.{(s['exit'] & 0xFFFFFFFF):x}")
+                    for lim, v in s.get("cut", {}).items():
+                        sim_table.append(f"{img}/exit.{(v & 0xFFFFFFFF):x}/{lim}")
 
     # output situation
     out = rd.get("out") if rd else None
@@ -508,7 +535,8 @@ def make_case(ctx, tool, items, extra_args=None, present=True, pre_out=None, out
                 expect = {"kind": "reject", "why": "source rejected"}
             else:
                 img, _ = ctx.image("xcmp", key)
-                expect = {"kind": "run", "status": srcinfo["exit"] & 0xFF, "created": {"a.bin": img or "<reference run failed>"}}
+                expect = {"kind": "run", "status": srcinfo.get("cut", {}).get(rd["limit"], srcinfo["exit"]) & 0xFF,
+                          "created": {"a.bin": img or "<reference run failed>"}}
             if rd["cycles_ok"]:
                 nf = [i for i in items if i[0] != "file"]
                 case["pipeline"] = {"xcmp": [rd["file"], "-o", "a.bin"], "hexsim": render(nf) + ["a.bin"]}
@@ -520,7 +548,7 @@ def make_case(ctx, tool, items, extra_args=None, present=True, pre_out=None, out
             elif rd["dump"]:
                 expect = {"kind": "accept-listing"}
             else:
-                expect = {"kind": "run", "status": srcinfo["exit"] & 0xFF}
+                expect = {"kind": "run", "status": srcinfo.get("cut", {}).get(rd["limit"], srcinfo["exit"]) & 0xFF}
     case.update({"files": files, "dirs": dirs, "unwritable": sorted(set(unwritable)), "expect": expect,
                  "src_table": src_table, "sim_table": sim_table,
                  "nontrivial": rd is not None})
@@ -537,9 +565,10 @@ def opt_pool(tool, r=None):
         return [[("flag", f)] for f in list(XCMP_ACTIONS) + ["--memory-info"]] + \
                [[("opt", "-o", "o1.bin")], [("opt", "--output", "o2.bin")]]
     if tool == "xrun":
-        return [[("flag", "-t")], [("flag", "--trace")], [("opt", "--max-cycles", "100000")], [("opt", "--max-cycles", "+77777")]]
+        return [[("flag", "-t")], [("flag", "--trace")], [("opt", "--max-cycles", "100000")], [("opt", "--max-cycles", "+77777")],
+                [("opt", "--max-cycles", str(CUT_LIMIT))]]
     return [[("flag", "-t")], [("flag", "--trace")], [("flag", "-d")], [("flag", "--dump")],
-            [("opt", "--max-cycles", "100000")], [("opt", "--max-cycles", " 90000")]]
+            [("opt", "--max-cycles", "100000")], [("opt", "--max-cycles", " 90000")], [("opt", "--max-cycles", str(CUT_LIMIT))]]
 
 
 def src_keys(tool, quick):
@@ -573,7 +602,9 @@ def systematic(ctx, quick):
             sets += [[[("flag", "--tree")], [("flag", "-S")]], [[("flag", "--memory-info")], [("opt", "-o", "o1.bin")]]]
         if tool in ("xrun", "hexsim"):
             sets += [[[("flag", "-t")], [("opt", "--max-cycles", "100000")]],
-                     [[("opt", "--max-cycles", "100000")], [("opt", "--max-cycles", "200000")]]]
+                     [[("opt", "--max-cycles", "100000")], [("opt", "--max-cycles", "200000")]],
+                     [[("opt", "--max-cycles", str(CUT_LIMIT))], [("opt", "--max-cycles", "100000")]],
+                     [[("flag", "-t")], [("opt", "--max-cycles", str(CUT_LIMIT))]]]
         keys = src_keys(tool, quick)
         for si, s in enumerate(sets):
             parts = s + [[("file", fn, None)]]
